@@ -1,5 +1,4 @@
--- imports JsonEqualStruct_proof.lean (Probe.JEqGStruct); Batteries only for the pigeonhole lemma
-import Probe.JEqGStruct
+import JsonEqualStruct_proof
 import Batteries.Data.List.Perm
 /-! C18: `Same R` is an equivalence relation on unique-key texts whenever the number relation `R` is one. -/
 namespace JEqG
